@@ -804,14 +804,14 @@ def run(ctx):
     def nontriv(c, o):
         return len(c.get("layout", [0, 0])) >= 2 and sum(len(x[2]) for x in c.get("layout", [])) >= 2
 
-    def go(name, cases, rule, branch, exhaustive=False, model_post=None, nontrivial=nontriv):
+    def go(name, cases, rule, branch, exhaustive=False, model_post=None, nontrivial=nontriv, inside=True):
         for c in cases:
             for k in ("enc", "src_comp", "dst_comp", "style", "proc", "parallel"):
                 if k in c:
                     dist[f"{k}={c[k]}"] += 1
         t0 = time.time()
         outs, _ = ctx.correspond(name, cases, impl, to_op, oracle, nontrivial=nontrivial, rule=rule, exhaustive=exhaustive, branch=branch,
-                                 model_post=model_post, in_hyp=lambda c, o: True)
+                                 model_post=model_post, in_hyp=lambda c, o: inside)
         for c in cases:
             _SIDE.pop(case_key(c), None)
         timing.append(f"{name}:{len(cases)}:{time.time() - t0:.0f}s")
@@ -860,7 +860,8 @@ def run(ctx):
     # destination = the source directory itself (known finding rechunker-dest-is-source)
     cases = [rech_case("serial", dest=rng.choice(["parent", "self"]), replace=rng.randint(0, 1)) for _ in range(ctx.pick(12, 40))]
     go("rechunker/dest-is-source", cases,
-       "dest_directory = the data directory that holds the source, or the source directory itself, with and without replace", branch=rech_branch)
+       "dest_directory = the data directory that holds the source, or the source directory itself, with and without replace (refused since fix D24: "
+       "ValueError, nothing touched)", branch=rech_branch, inside=False)
 
     # ---- 3. rechunk on load
     cases = []
@@ -915,7 +916,7 @@ def run(ctx):
     go("per-chunk/odd-selection", odd,
        "chunk_number_group out of order / incomplete / with a repeated group: which key the result is stored under, error kinds and what is stored "
        "compared with the model (mirrors the min/max completeness test of merge_per_chunk_storage)",
-       branch=lambda c, o: o.split(" ## ")[0][:24])
+       branch=lambda c, o: o.split(" ## ")[0][:24], inside=False)
 
     # ---- 5. keys
     cases = []
